@@ -2,6 +2,7 @@ import Driver.Util
 import WildModel.Model.Link
 import WildModel.Model.Wrap
 import WildModel.Model.Needed
+import WildModel.Model.Mentions
 namespace Driver
 open Wild.Link
 
@@ -64,6 +65,14 @@ def opsLink (t : List String) : Option String :=
           | _ => none
       | none => []
     some (s!"R={",".intercalate ren} " ++ linkAnswer (am == "1") fs')
+  | "mentions" :: rest =>
+    -- command-line mentions `path:as_needed` -> the pending requests of FileLoader::load_inputs
+    let ms := rest.filterMap fun t => match t.splitOn ":" with
+      | [p, a] => (p.toNat?).map fun pn => (pn, a == "1")
+      | _ => none
+    if ms.length != rest.length then none else
+    let r := Wild.Mentions.loadInputs ms
+    some ("M=" ++ ",".intercalate (r.map fun (p, a) => s!"{p}:{if a then 1 else 0}"))
   | "lk" :: am :: rest => do
     let fs ← parseLinkFiles rest
     let allowMulti := am == "1"
